@@ -1,6 +1,6 @@
 """C03  Immutable availability with k good shares  (Engine G, stateless model checking).
 
-2-of-3 file (61 bytes, 3 segments).  Space:
+2-of-3 file (61 bytes, 3 segments) and a 3-of-4 file (k shares can be forced to come from ONE server).  Space:
  (a) default schedule: EVERY partition of the 3 shares over servers (5 placements, several shares
      per server included, plus placements with a second copy of a share) x EVERY assignment of a
      damage kind in {intact, missing, corrupt block, corrupt share-hash} to each copy x EVERY
@@ -52,6 +52,33 @@ def all_cases(tier):
     return out
 
 
+BASE3 = dict(k=3, n=4, seg=21, size=61)
+PLACEMENTS3 = [
+    {"0": [0], "1": [0], "2": [0], "3": [0]},           # everything on one server (k shares must come from it)
+    {"0": [0], "1": [0], "2": [0], "3": [1]},
+    {"0": [0], "1": [0], "2": [1], "3": [1]},
+    {"0": [0], "1": [1], "2": [2], "3": [3]},
+    {"0": [0, 1], "1": [0, 1], "2": [0], "3": [1]},
+]
+
+
+def k3_cases(tier):
+    out = []
+    for pl in PLACEMENTS3:
+        copies = [(sv, int(sh)) for sh, svs in pl.items() for sv in svs]
+        servers = sorted(set(sv for sv, sh in copies))
+        for dmg in itertools.product([None, "missing"] if tier == "quick" else [None, "missing", "corrupt-block0"], repeat=len(copies)):
+            for sk in itertools.product(["ok", "errors-on-read"], repeat=len(servers)):
+                if sum(1 for x in dmg if x) > 2 or sum(1 for x in sk if x != "ok") > 1:
+                    continue
+                d = {"%d:%d" % c: k for c, k in zip(copies, dmg) if k}
+                s = {str(sv): k for sv, k in zip(servers, sk) if k != "ok"}
+                out.append(dict(BASE3, S=max(servers) + 2, placement=pl, damage=d, server_kind=s, groups=[[[0, None]]]))
+                # no spare empty server: the finder runs out of servers at a different moment
+                out.append(dict(BASE3, S=max(servers) + 1, placement=pl, damage=d, server_kind=s, groups=[[[0, None]]]))
+    return out
+
+
 def rep_cases():
     out = []
     for pl in PLACEMENTS[:3] + PLACEMENTS[5:6]:
@@ -68,7 +95,7 @@ def replay(case):
 
 
 def run(tier, seed):
-    cases = all_cases(tier)
+    cases = all_cases(tier) + k3_cases(tier)
     res = common.pmap(lib_imm.explore_chunk, cases, (seed, 0, 0, None, "C03"))
     n0 = res.counts.get("executions", 0)
     reps = rep_cases()
